@@ -69,6 +69,14 @@ struct string_equal {
 	}
 };
 
+#ifdef CPPCMS_VERIF_HOOKS
+// Verification hook (off unless CPPCMS_VERIF_HOOKS is defined; null unless a test harness
+// registers a callback): called inside the critical section of every mem_cache operation, at
+// the point where the operation takes effect. point: 1 fetch (miss), 2 fetch (hit, inside the
+// lru_mutex block), 3 rise, 4 clear, 5 stats, 6 remove, 7 store.
+extern "C" { void (*cppcms_verif_cache_hook)(int point) = 0; }
+#endif
+
 #ifndef CPPCMS_NO_PREFOK_CACHE
 
 struct process_settings {
@@ -257,6 +265,9 @@ public:
 		time(&now);
 
 		if((p=primary.find(key))==primary.end() || p->second.timeout->first < now) {
+#ifdef CPPCMS_VERIF_HOOKS
+			if(cppcms_verif_cache_hook) cppcms_verif_cache_hook(1);
+#endif
 			return false;
 		}
 
@@ -265,6 +276,9 @@ public:
 			lru.erase(p->second.lru);
 			lru.push_front(p);
 			p->second.lru=lru.begin();
+#ifdef CPPCMS_VERIF_HOOKS
+			if(cppcms_verif_cache_hook) cppcms_verif_cache_hook(2);
+#endif
 		}
 
 		if(a)
@@ -289,6 +303,9 @@ public:
 	virtual void rise(std::string const &trigger)
 	{
 		wrlock_guard lock(*access_lock);
+#ifdef CPPCMS_VERIF_HOOKS
+		if(cppcms_verif_cache_hook) cppcms_verif_cache_hook(3);
+#endif
 		triggers_ptr p = triggers.find(trigger);
 		if(p==triggers.end())
 			return;
@@ -316,11 +333,17 @@ public:
 	virtual void clear()
 	{
 		wrlock_guard lock(*access_lock);
+#ifdef CPPCMS_VERIF_HOOKS
+		if(cppcms_verif_cache_hook) cppcms_verif_cache_hook(4);
+#endif
 		nl_clear();
 	}
 	virtual void stats(unsigned &keys,unsigned &triggers)
 	{
 		rdlock_guard lock(*access_lock);
+#ifdef CPPCMS_VERIF_HOOKS
+		if(cppcms_verif_cache_hook) cppcms_verif_cache_hook(5);
+#endif
 		keys=size;
 		triggers = triggers_count;
 	}
@@ -346,6 +369,9 @@ public:
 	virtual void remove(std::string const &key)
 	{
 		wrlock_guard lock(*access_lock);
+#ifdef CPPCMS_VERIF_HOOKS
+		if(cppcms_verif_cache_hook) cppcms_verif_cache_hook(6);
+#endif
 		pointer p=primary.find(key);
 		if(p==primary.end())
 			return;
@@ -379,6 +405,9 @@ public:
 		}
 
 		wrlock_guard lock(*access_lock);
+#ifdef CPPCMS_VERIF_HOOKS
+		if(cppcms_verif_cache_hook) cppcms_verif_cache_hook(7);
+#endif
 		try {
 			pointer main;
 			main=primary.find(key);
